@@ -204,11 +204,18 @@ func (g XGen) genAttrs(t *rapid.T, e *XElem) {
 		if g.Namespaces {
 			switch rapid.IntRange(0, 9).Draw(t, "akind") {
 			case 0:
-				a.Prefix = rapid.SampledFrom([]string{"ns", "p", "n-s"}).Draw(t, "apfx")
+				a.Prefix = rapid.SampledFrom([]string{"ns", "p", "n-s", "xml"}).Draw(t, "apfx") // xml:space, xml:lang need no declaration
 			case 1:
 				a = XAttr{Prefix: "xmlns", Local: rapid.SampledFrom([]string{"ns", "p", "n-s"}).Draw(t, "nsdecl"), Value: "urn:" + rapid.SampledFrom([]string{"x", "y"}).Draw(t, "uri")}
 			case 2:
 				a = XAttr{Local: "xmlns", Value: "urn:default"}
+			case 3:
+				// the attributes of the reserved xml: namespace, with the values XML gives a meaning to
+				if rapid.Bool().Draw(t, "xmlspace") {
+					a = XAttr{Prefix: "xml", Local: "space", Value: rapid.SampledFrom([]string{"preserve", "preserve", "default"}).Draw(t, "xsv")}
+				} else {
+					a = XAttr{Prefix: "xml", Local: "lang", Value: rapid.SampledFrom([]string{"en", "de-CH", ""}).Draw(t, "xlv")}
+				}
 			}
 		}
 		fk := foldKey(a.Local, g.Opts)
@@ -243,8 +250,24 @@ func (g XGen) Elem(t *rapid.T, depth int) *XElem {
 	if depth <= 0 && kind > 1 {
 		kind = 1
 	}
+	if g.Wide && depth >= 2 && rapid.IntRange(0, 149).Draw(t, "deepchain") == 0 {
+		// a chain of 50-70 nested single-child elements around an ordinary leaf element
+		n := rapid.IntRange(50, 70).Draw(t, "chainlen")
+		cur := e
+		for i := 0; i < n; i++ {
+			c := &XElem{Local: rapid.SampledFrom(xmlNames).Draw(t, "chainname")}
+			cur.Items = append(cur.Items, XItem{Kind: kElem, El: c})
+			cur = c
+		}
+		cur.Items = append(cur.Items, XItem{Kind: kElem, El: g.Elem(t, 0)})
+		return e
+	}
 	textItem := func(label string) XItem {
 		s := g.text(t, label)
+		if g.Wide && rapid.IntRange(0, 299).Draw(t, "longtext") == 0 {
+			// longer than any 4096-byte buffer, recognisable at both ends
+			s = "BEGIN" + strings.Repeat("0123456789abcde ", rapid.IntRange(257, 600).Draw(t, "longn")) + s + "END"
+		}
 		for i := 0; !g.nonBlank(s) && i < 5; i++ {
 			s += "x"
 		}
